@@ -371,9 +371,9 @@ Definition isCCW (ring : list pt) : bool :=
     else 0 <? orient uplow hi downlow
   else px downhi - px hi <? 0.
 
-(* Polygon::normalize(LinearRing*, bool clockwise) calls coords.closeRing() , i.e. allowRepeated = false (the candidate fix
-   proposed_fixes/C20_polygon_normalize_keep_repeated_seam_point.diff changes exactly this flag) *)
-Definition POLY_CLOSE_ALLOW_REPEATED : bool := false.
+(* Polygon::normalize(LinearRing*, bool clockwise) calls coords.closeRing(true) since fix 97a16010e (C20-F1); before it was
+   closeRing(), i.e. allowRepeated = false, which dropped a repeated point at the ring seam *)
+Definition POLY_CLOSE_ALLOW_REPEATED : bool := true.
 Definition norm_ring (clockwise : bool) (r : list pt) : list pt :=
   match r with
   | [] => []
